@@ -66,7 +66,8 @@ def handleC14 : List String → String
       let s : SSHArgs := { strictKey := s2b strict, privateKeyPath := key, privateKeyPassPhrase := pass,
                            configFile := cfg, knownHostsFile := kh, netconf := s2b nc }
       let t : System := { ssh := s, extra := extra, override := ovr }
-      let dom := hostOk host && ovr.isEmpty
+      -- `user@host` and `ssh://…` destination syntaxes are not modelled by sshParse: outside the domain
+      let dom := hostOk host && ovr.isEmpty && !host.contains 64 && !hasPrefix host [115,115,104,58,47,47]
       match systemOpen a t (s2b keyLoads) with
       | .error e => s!"dom={b2s dom} err {showErr e}"
       | .ok (bin, argv) =>
